@@ -127,6 +127,14 @@ def check_overload(site, r, ov, kind, cls, where):
             if not rhs.startswith(want_prim):
                 probs.append(('C06.return', '%s: out[%d] = %s, expected %s for %s' % (
                     where, k, rhs[:50], want_prim, rt)))
+            elif want_prim == 'wrap_enum' and '<' not in rt:
+                # the value goes back as an instance of the generated MATLAB enumeration
+                mm = re.search(r',\s*"([^"]*)"\s*\)\s*;?\s*$', rhs)
+                want_cls = t.bare.replace('::', '.')
+                if mm and mm.group(1) != want_cls:
+                    probs.append(('C06.return', '%s: out[%d] is wrapped as MATLAB class %r, the '
+                                  'enumeration generated for %s is %r' % (
+                                      where, k, mm.group(1), rt, want_cls)))
     return probs
 
 
